@@ -375,6 +375,7 @@ impl<'a> World<'a> {
                     g.jitter_queue = j.iter().copied().collect();
                 }
                 g.jitter_seed = self.scn.sched.jitter_seed.map(|s| mix(s, d as u64));
+                g.jitter_time_seed = self.scn.sched.jitter_time_seed;
             }
             crate::alloc::reset(alloc_slot);
             mdns_sd::verif::attach(Some(node.clone()));
